@@ -15,7 +15,9 @@ is written down anywhere; the implementation is compared with itself under a var
   can rebind, so every caller prefix passes the same explicit arguments.
 * bodies (of the partial, the macro and the snippet alike): every sequence of <= 2 (thorough 3) ops
   out of 15: output v/w/p, ``if`` on v/w, assign v/w/p, capture v/w, increment v/w, loop over v/w, and a
-  read of the loop objects (forloop, forloop.parentloop from the body's own loop, tablerowloop);
+  read of the loop objects (forloop, forloop.parentloop at the top level of the body -- inside
+  ``render ... for`` that is the parent of the render's own loop -- and from the body's own loop,
+  tablerowloop);
   the quick tier leaves out ``if v`` and the loop over w (13 ops).
 * global data: G0 = nothing global is called v, w, p; G1 = v, w, p are render arguments; G2 = w is an
   environment global, p a template global, v a render argument.
@@ -418,8 +420,8 @@ class C15(Check):
         "the calling template'); such deviations carry feature 'number' (a counter value or a loop index)",
         "include inside a macro body: the statement isolates macros from caller *local variables* only and "
         "docs/optional_tags.md is silent on include: executed and labelled, excluded from the verdict",
-        "forloop.parentloop read at the top level of a partial rendered with `render ... for` (the docs call "
-        "parentloop 'the forloop of an enclosing for loop' and say nothing about render-for): not generated",
+        "forloop.parentloop read at the top level of a partial rendered with `render ... for` must not expose the "
+        "caller's enclosing loop (the caller's loop is neither an explicit argument, the bound variable nor global data)",
         "cycle / ifchanged / break / continue / `offset: continue` state across render is not part of the statement: not generated",
         "CachingDictLoader is only used so that partial 'p' is parsed once per body (C23 covers its transparency)",
     ]
